@@ -229,8 +229,18 @@ func (c *vEP) Close() error {
 	c.once.Do(func() {
 		close(c.closed)
 		c.h.mu.Lock()
-		if c.h.eps[vKey(c.addr)] == c {
+		l := c.h.eps[vKey(c.addr)]
+		for i, e := range l {
+			if e == c {
+				l = append(l[:i:i], l[i+1:]...)
+
+				break
+			}
+		}
+		if len(l) == 0 {
 			delete(c.h.eps, vKey(c.addr))
+		} else {
+			c.h.eps[vKey(c.addr)] = l
 		}
 		c.h.mu.Unlock()
 	})
@@ -243,7 +253,7 @@ func (c *vEP) SetWriteDeadline(time.Time) error { return nil }
 
 type vHub struct {
 	mu       sync.Mutex
-	eps      map[string]*vEP
+	eps      map[string][]*vEP // endpoints per transport address in registration order: the FIRST open one receives
 	inflight []vDgram
 	nat      [][2]int
 	blocked  map[[2]int]bool
@@ -811,7 +821,12 @@ func (s *vSession) handOver(d vDgram) {
 		}
 	}
 	s.hub.mu.Lock()
-	ep := s.hub.eps[vKey(vNetAddr(netw, real))]
+	var ep *vEP
+	if l := s.hub.eps[vKey(vNetAddr(netw, real))]; len(l) > 0 {
+		// two local candidates at one transport address (e.g. a passive and an active TCP candidate): the one
+		// added first receives, as the model's `localByAddr` takes the first; a closed one uncovers the next
+		ep = l[0]
+	}
 	s.hub.mu.Unlock()
 	if ep == nil || !ep.owner.started || ep.owner.closed {
 		return
@@ -853,7 +868,7 @@ func (s *vSession) exec(t []string) string {
 		})
 		if !dup {
 			s.hub.mu.Lock()
-			s.hub.eps[vKey(ua)] = ep
+			s.hub.eps[vKey(ua)] = append(s.hub.eps[vKey(ua)], ep)
 			s.hub.mu.Unlock()
 			vAddrOwner[vKey(ua)] = h
 		}
@@ -931,9 +946,9 @@ func (s *vSession) exec(t []string) string {
 		la := vAtoi(t[2])
 		var ep *vEP
 		s.hub.mu.Lock()
-		for _, e := range s.hub.eps {
-			if e.owner == h && vNetAddrID(e.addr) == la {
-				ep = e
+		for _, l := range s.hub.eps {
+			if len(l) > 0 && l[0].owner == h && vNetAddrID(l[0].addr) == la {
+				ep = l[0] // the first open endpoint at the address receives (see handOver)
 			}
 		}
 		s.hub.mu.Unlock()
@@ -947,9 +962,9 @@ func (s *vSession) exec(t []string) string {
 		la := vAtoi(t[2])
 		var ep *vEP
 		s.hub.mu.Lock()
-		for _, e := range s.hub.eps {
-			if e.owner == h && vNetAddrID(e.addr) == la {
-				ep = e
+		for _, l := range s.hub.eps {
+			if len(l) > 0 && l[0].owner == h && vNetAddrID(l[0].addr) == la {
+				ep = l[0] // the first open endpoint at the address receives (see handOver)
 			}
 		}
 		s.hub.mu.Unlock()
@@ -1136,7 +1151,7 @@ func vPayload(n int, stunLike bool) []byte {
 // bubble (so the bubble's virtual clock does not advance while it waits).
 func vRunSession(t *testing.T, cfgA, cfgB string, first chan string) {
 	synctest.Test(t, func(t *testing.T) {
-		s := &vSession{hub: &vHub{eps: map[string]*vEP{}, blocked: map[[2]int]bool{}}, ag: map[string]*vAgentH{},
+		s := &vSession{hub: &vHub{eps: map[string][]*vEP{}, blocked: map[[2]int]bool{}}, ag: map[string]*vAgentH{},
 			epoch: time.Now(), pwds: map[string]bool{"": true}, xtids: map[string][stun.TransactionIDSize]byte{}}
 		vAddrOwner = map[string]*vAgentH{}
 		a, err := s.newAgent("A", cfgA)
